@@ -778,3 +778,15 @@ def defer_sub():
 
 
 ALL["defer_sub"] = defer_sub
+
+
+def fork_flags():
+    """fork_entry without its completion rows: a sub-machine whose first entry is an explicit entry, a fork or an entry point,
+    with flags on the states behind them -- nothing but the flag and introspection answers depends on the recursive visitors"""
+    sp = fork_entry()
+    sp["name"] = "fork_flags"
+    sp["machines"][1]["rows"] = [r for r in sp["machines"][1]["rows"] if " + " in r.split("->")[0].split("[")[0].split("/")[0]]
+    return sp
+
+
+ALL["fork_flags"] = fork_flags
